@@ -432,6 +432,23 @@ def ladder(k: int, stem_len: int = 1, gap: int = 0) -> Tuple[str, tuple]:
     return (seq_for(n, k), tuple(sorted(pairs)))
 
 
+def star(k: int, stem_len: int = 1) -> Tuple[str, tuple]:
+    """one long-range stem crossing k nested, bulge-separated stems: two levels suffice, but one stem has k crossing
+    neighbours (the bound 'largest number of crossing neighbours + 1' exceeds the 30 bracket kinds from k = 30 on)"""
+    pairs = []
+    left = k * (stem_len + 1)
+    a = left + 1
+    right0 = a + 3
+    for i in range(k):
+        x0 = i * (stem_len + 1) + 1
+        y_end = right0 + (k - i) * stem_len
+        for t in range(stem_len):
+            pairs.append((x0 + t, y_end - t))
+    b = right0 + k * stem_len + 1
+    pairs.append((a, b))
+    return (seq_for(b, k), tuple(sorted(pairs)))
+
+
 def st_dotbrackets(max_len: int = 60, max_types: int = 30):
     """balanced dot-bracket strings: per-type Dyck words interleaved by construction."""
     from hypothesis import strategies as st
